@@ -125,6 +125,33 @@ def order_interleaving(ck):
                     ck.violation("order=1 and order=2 analyses coincide although the record has a quadratic trend (%s backend)" % be, dict(backend=be, N=N), tag="interleave-same:%s" % be)
 
 
+def single_bin_large_trend(ck):
+    """compute_single_bin with order p: adding a polynomial of degree <= p that dwarfs the noise (1e6 x) leaves the estimate unchanged
+    relative to the size of the trend; short segments (L <= p+1 and just above) included."""
+    from speckit.analysis import SpectrumAnalyzer
+    for be in ("numba", "numpy"):
+        for order in (1, 2):
+            for cross in (False, True):
+                N = 2000
+                g = np.random.default_rng(ck.rng.randint(0, 2 ** 31))
+                t = (np.arange(N) - N / 2) / N
+                x = g.standard_normal(N); y = g.standard_normal(N)
+                A = 1e6
+                px = A * (0.7 + 1.3 * t + (0.9 * t ** 2 if order == 2 else 0.0)); py = A * (-0.4 + 0.8 * t - (1.1 * t ** 2 if order == 2 else 0.0))
+                for L in (400, 64, 7):
+                    kw = dict(order=order, win="hann", olap=0.5, backend=be)
+                    with np.errstate(all="ignore"):
+                        r0 = SpectrumAnalyzer(np.vstack([x, y]) if cross else x, 1.0, **kw).compute_single_bin(2.3 / L, L=L)
+                        r1 = SpectrumAnalyzer(np.vstack([x + px, y + py]) if cross else x + px, 1.0, **kw).compute_single_bin(2.3 / L, L=L)
+                    for k in ("XX", "YY"):
+                        a, b = float(r0._data[k][0]), float(r1._data[k][0])
+                        # leftover of a float64 projection: ~1e-13 * A in amplitude, i.e. (1e-13 A)^2 L^2 in these raw sums; allow 1e4 x that
+                        if abs(a - b) > 1e-6 * abs(a) + (1e-11 * A * L) ** 2:
+                            ck.violation("single bin, order=%d, L=%d, %s backend: adding a degree-%d polynomial of size %g changes %s from %r to %r" % (order, L, be, order, A, k, a, b),
+                                         dict(order=order, L=L, backend=be, cross=cross, A=A), tag="single-bin-trend:%s" % be)
+                            break
+
+
 def run(ck):
     r = regen.regen_kernels()
     ck.obligation("translate:T1 kernels -> gen/KernelsGen.v", r["ok"], r["error"] or "")
@@ -133,6 +160,7 @@ def run(ck):
     trend_sweep(ck)
     analyzer_dispatch(ck)
     order_interleaving(ck)
+    single_bin_large_trend(ck)
     ck.cov["rule"] = "kernel cases (L in {5..257}, 4 backends, auto+cross): add degree<=p polynomials of size 1 or 1e3 to both channels (own coefficients) -> unchanged within the rounding budget of the trend; degree p+1 -> changes as the definition predicts; QR basis contract; analyzer dispatch per order on 3 backends"
     ck.samples = [dict(test="order 2, csd, numba, quadratic trends of size 1e3 on both channels")]
     ck.assumptions += ["orders 1,2 are proved for any basis with orthonormal columns; that LAPACK's Q is orthonormal and spans 1,t,t^2 is a contract validated numerically each run", "rounding relative to the size of the added trend"]
